@@ -334,6 +334,8 @@ impl<'r, RT: Runtime> System<'r, RT> {
 
         self.rt.set_state_root(&new_root)?;
         self.saved_state_root = Some(new_root);
+        #[cfg(feature = "verif-hooks")]
+        super::verif::on_flush();
         Ok(())
     }
 
@@ -371,6 +373,8 @@ impl<'r, RT: Runtime> System<'r, RT> {
             .set_root(&state.contract_state)
             .context_code(ExitCode::USR_ILLEGAL_STATE, "state not in blockstore")?;
         self.nonce = state.nonce;
+        #[cfg(feature = "verif-hooks")]
+        super::verif::on_reload();
         self.saved_state_root = Some(root);
         self.bytecode = Some(EvmBytecode::new(state.bytecode, state.bytecode_hash));
         self.tombstone = state.tombstone;
